@@ -10,6 +10,7 @@ import (
 	"io"
 	"io/ioutil"
 	"math"
+	"runtime"
 	"runtime/metrics"
 	"strings"
 
@@ -44,6 +45,13 @@ var c05sample = []metrics.Sample{{Name: "/gc/heap/allocs:bytes"}}
 func allocBytes() uint64 {
 	metrics.Read(c05sample)
 	return c05sample[0].Value.Uint64()
+}
+
+// allocExact flushes the per-P allocation caches (the metrics counter lags by up to a cache's worth of small objects).
+func allocExact() uint64 {
+	var ms runtime.MemStats
+	runtime.ReadMemStats(&ms)
+	return ms.TotalAlloc
 }
 
 func c05decoders() []c05dec {
@@ -833,8 +841,204 @@ func init() {
 					}
 				},
 			},
+			{
+				// "proportional to the input length": the same valid structure at 16 times the size may not cost more than
+				// 4 x 16 times the allocation (a decoder whose cost grows with parts x total size would cost 256 times)
+				Name: "allocation-growth-on-large-valid-inputs", Count: func(string) uint64 { return uint64(len(c05shapes) * 5) }, Exhaustive: h.Always, BudgetSec: 120,
+				Run: func(c *h.Ctx, idx uint64, r *h.Rand) {
+					shape := c05shapes[idx/5]
+					fam := []string{"wkb", "wkt", "json", "bson", "mvt"}[idx%5]
+					const base, factor = 200, 16
+					small, big := c05encode(fam, shape.make(base)), c05encode(fam, shape.make(base*factor))
+					if small == nil || big == nil {
+						return
+					}
+					c.Note([]byte(fmt.Sprintf("%s %s x%d", fam, shape.name, base*factor)))
+					for i := range c05decs {
+						d := &c05decs[i]
+						if d.family != fam {
+							continue
+						}
+						measure := func(in []byte) (uint64, error, interface{}) {
+							cp := append([]byte{}, in...)
+							var err error
+							a0 := allocExact()
+							pv, _ := h.Catch(func() { _, err = d.f(cp) })
+							return allocExact() - a0, err, pv
+						}
+						us, es, ps := measure(small)
+						ub, eb, pb := measure(big)
+						c.Evals(2)
+						det := map[string]interface{}{"decoder": d.name, "shape": shape.name, "small_elements": base, "small_bytes": len(small), "small_allocated": us, "big_elements": base * factor, "big_bytes": len(big), "big_allocated": ub}
+						if ps != nil || pb != nil {
+							c.Fail("", "a decoder panicked on a large valid input", map[string]interface{}{"case": det, "panic": sv(ps) + sv(pb)})
+							continue
+						}
+						if (es == nil) != (eb == nil) {
+							c.Fail("", "a decoder accepts a valid structure at one size and rejects it at another", map[string]interface{}{"case": det, "small_err": sv(es), "big_err": sv(eb)})
+							continue
+						}
+						scale := float64(len(big)) / float64(len(small))
+						if float64(ub) > 4*scale*float64(us)+float64(1<<20) {
+							c.Fail("", "allocation grows faster than the input: 16 times the elements cost more than 4 x 16 times the memory", map[string]interface{}{"case": det})
+						}
+						if es == nil {
+							c.Count("large_valid_inputs_decoded", 1)
+							c.Max("allocation growth for 16x the elements (x)", float64(ub)/math.Max(float64(us), 1), func() string { return d.name + " " + shape.name })
+						}
+					}
+					c.Nontrivial(h.Mix(h.HashString(fam), h.HashString(shape.name)))
+					c.Sample(map[string]interface{}{"family": fam, "shape": shape.name, "small_bytes": len(small), "big_bytes": len(big)})
+				},
+			},
 		},
 	})
+}
+
+// c05shapes: valid structures parametrised by an element count.
+var c05shapes = func() []struct {
+	name string
+	make func(k int) orb.Geometry
+} {
+	pt := func(i int) orb.Point { return orb.Point{float64(i%97) + 0.5, float64(i%89) + 0.25} }
+	pts := func(i, m int) []orb.Point {
+		o := make([]orb.Point, m)
+		for j := range o {
+			o[j] = pt(i*7 + j)
+		}
+		return o
+	}
+	ring := func(i int) orb.Ring {
+		x, y := float64(i%97), float64(i%89)
+		return orb.Ring{{x, y}, {x + 1, y}, {x + 1, y + 1}, {x, y + 1}, {x, y}}
+	}
+	type sh = struct {
+		name string
+		make func(k int) orb.Geometry
+	}
+	return []sh{
+		{"multi point of k points", func(k int) orb.Geometry { return orb.MultiPoint(pts(0, k)) }},
+		{"line string of k points", func(k int) orb.Geometry { return orb.LineString(pts(0, k)) }},
+		{"multi line string of k two-point lines", func(k int) orb.Geometry {
+			m := make(orb.MultiLineString, k)
+			for i := range m {
+				m[i] = pts(i, 2)
+			}
+			return m
+		}},
+		{"polygon of k small rings", func(k int) orb.Geometry {
+			p := make(orb.Polygon, k)
+			for i := range p {
+				p[i] = ring(i)
+			}
+			return p
+		}},
+		{"multi polygon of k one-ring polygons", func(k int) orb.Geometry {
+			m := make(orb.MultiPolygon, k)
+			for i := range m {
+				m[i] = orb.Polygon{ring(i)}
+			}
+			return m
+		}},
+		{"multi polygon of sqrt(k) polygons with sqrt(k) rings", func(k int) orb.Geometry {
+			q := int(math.Sqrt(float64(k)))
+			m := make(orb.MultiPolygon, q)
+			for i := range m {
+				m[i] = make(orb.Polygon, q)
+				for j := range m[i] {
+					m[i][j] = ring(i*q + j)
+				}
+			}
+			return m
+		}},
+		{"collection of k points", func(k int) orb.Geometry {
+			m := make(orb.Collection, k)
+			for i := range m {
+				m[i] = pt(i)
+			}
+			return m
+		}},
+		{"collection of k mixed small members", func(k int) orb.Geometry {
+			m := make(orb.Collection, k)
+			for i := range m {
+				switch i % 4 {
+				case 0:
+					m[i] = pt(i)
+				case 1:
+					m[i] = orb.LineString(pts(i, 3))
+				case 2:
+					m[i] = orb.Polygon{ring(i)}
+				default:
+					m[i] = orb.MultiPoint(pts(i, 2))
+				}
+			}
+			return m
+		}},
+		{"one ring of k points among k/10 small rings", func(k int) orb.Geometry {
+			p := make(orb.Polygon, 0, k/10+1)
+			bigr := append(orb.Ring(pts(0, k)), pt(0))
+			p = append(p, bigr)
+			for i := 0; i < k/10; i++ {
+				p = append(p, ring(i))
+			}
+			return p
+		}},
+	}
+}()
+
+// c05encode gives the valid encoding of g in the family's format (geojson: a feature collection with one feature per
+// member for collections, otherwise a geometry; mvt: one layer, one feature per member).
+func c05encode(fam string, g orb.Geometry) []byte {
+	switch fam {
+	case "wkb":
+		b, err := wkb.Marshal(g)
+		if err != nil {
+			return nil
+		}
+		return b
+	case "wkt":
+		return wkt.Marshal(g)
+	case "json", "bson":
+		var v interface{} = geojson.NewGeometry(g)
+		if coll, ok := g.(orb.Collection); ok {
+			fc := geojson.NewFeatureCollection()
+			for i, m := range coll {
+				f := geojson.NewFeature(m)
+				f.ID = float64(i)
+				f.Properties = geojson.Properties{"n": float64(i), "s": "v"}
+				fc.Append(f)
+			}
+			v = fc
+		}
+		var b []byte
+		var err error
+		if fam == "json" {
+			b, err = json.Marshal(v)
+		} else {
+			b, err = bson.Marshal(v)
+		}
+		if err != nil {
+			return nil
+		}
+		return b
+	default:
+		fc := geojson.NewFeatureCollection()
+		if coll, ok := g.(orb.Collection); ok {
+			for i, m := range coll {
+				f := geojson.NewFeature(m)
+				f.ID = float64(i)
+				f.Properties = geojson.Properties{"n": float64(i % 50), "s": "v"}
+				fc.Append(f)
+			}
+		} else {
+			fc.Append(geojson.NewFeature(g))
+		}
+		b, err := mvt.Marshal(mvt.Layers{mvt.NewLayer("l", fc)})
+		if err != nil {
+			return nil
+		}
+		return b
+	}
 }
 
 // C05Judge runs one input through every decoder of the family and returns the violations observed
